@@ -1,7 +1,7 @@
 #!/bin/bash
 # dev helper: ./tools_patch_check.sh neutral/n4-03 C02 [C20 ..]   applies an archived patch in a scratch worktree and runs the named checks
 d=$1; shift
-wt=/tmp/neval_wt
+wt=/tmp/pcheck_wt
 [ -d $wt ] || git -C /repo worktree add -q --detach $wt HEAD
 git -C $wt checkout -q --detach $(git -C /repo rev-parse HEAD); git -C $wt checkout -q -- .
 git -C $wt apply /verif/$d/patch.diff || { echo APPLY FAILED; exit 1; }
